@@ -73,7 +73,7 @@ class Gen:
 
     # ---- structure
     def name(self):
-        return self.r.choice(["x", "y", "foo", "BAR", "_v1", "a1"])
+        return self.r.choice(["x", "y", "foo", "BAR", "_v1", "a1", "é", "日本1"])
 
     def lit(self):
         return self.r.choice(["a", "b", "echo", "foo", "bar", "x1", "-n", "file.txt", "/bin/ls", "a=b", "1", "é", "in", "do"])
